@@ -25,7 +25,7 @@ BUDGET_CLASSES = ("amplification_time", "amplification_memory")
 MEM_BASE, MEM_PER_BYTE = 256 << 20, 64
 CPU_BASE, CPU_PER_BYTE = 20.0, 100e-6
 PROBES = ["limit_file_size_exact", "limit_file_size_disabled", "limit_file_grows_after_call", "limit_7z_archive_size", "limit_member_zip", "limit_member_tar",
-          "limit_member_7z", "limit_member_duplicate_names", "amp_ods_repeat", "amp_odf_text_space_count", "amp_xlsx_dimension", "amp_entities", "amp_deep_nesting",
+          "limit_member_7z", "limit_member_duplicate_names", "limit_member_tar_hardlink_to_oversize", "amp_ods_repeat", "amp_odf_text_space_count", "amp_xlsx_dimension", "amp_entities", "amp_deep_nesting",
           "amp_ratio_member", "amp_mbox_many_from", "amp_7z_lying_unpack_size", "amp_pdf_object_loop", "amp_count_field_fault", "memory_error_under_cap", "scaling_pair"]
 RULE = ("limit runs: files / archives / members of size L-1, L, L+1 around every explicit limit (max_file_size incl. 0 and a file that grows between "
         "call and consumption, the 100 MiB 7z limit, the per-member knob N in ZIP/TAR/7z incl. duplicate names) with the I/O event log proving "
@@ -85,6 +85,7 @@ def gen_case(rng: random.Random, tier: str) -> dict:
             c["method"] = rng.choice(["copy", "lzma2", "lzma"])
             c["pos"] = rng.choice(["first", "middle", "last"])
             c["only_big"] = rng.random() < 0.2
+            c["link_to_big"] = rng.random() < 0.4
         return c
     if r < 0.62:
         fam = rng.choice(["ods_repeat", "ods_repeat", "ods_repeat", "text_space", "xlsx_dimension", "entities", "deep", "ratio_member", "mbox_from", "lying_7z", "pdf_loop", "pdf_loop"])
@@ -622,6 +623,10 @@ def _run_limit(case, viol, probes, log):
             only_big = bool(case.get("only_big"))
             if only_big:
                 members = [big]  # nothing else is wanted: the filter set is empty
+            if fmt.startswith("tar") and case.get("link_to_big"):
+                # a hard link has size 0 of its own; following it must not bring the oversize member in through the back door
+                members = members + [{"name": "alias.txt", "kind": "hardlink", "link": "dir/big.txt"}]
+                probes["limit_member_tar_hardlink_to_oversize"] = 1
             if kind == "member_dup":
                 probes["limit_member_duplicate_names"] = 1
                 fmt = "zip" if fmt == "7z" else fmt
